@@ -271,6 +271,64 @@ def run_case(case):
                 r.violation(f'C10:{fam}:refit-history', f'{fam}: fit({n1}) then fit({n2}) on one object gives '
                             f'{(type(e1).__name__ if e1 else (obj.tau, obj.theta))!r}, a fresh object gives '
                             f'{(type(e2).__name__ if e2 else (fresh.tau, fresh.theta))!r}', case=case)
+    # ONE array object: fitted, refilled in place with another table of the same shape, fitted again (by the same object, by a new
+    # object of the same family and by a sibling family): the fit describes the values the array holds NOW
+    same_shape = [(n_, X_) for n_, X_ in data if X_.shape == data[2][1].shape]
+    for n1, X1 in same_shape:
+        for n2, X2 in same_shape:
+            if n1 == n2:
+                continue
+            for who in ('same-object', 'new-object', 'sibling-first'):
+                buf = X1.copy()
+                first = Bivariate(copula_type=fam if who != 'sibling-first' else ('frank' if fam != 'frank' else 'gumbel'))
+                try:
+                    first.fit(buf)
+                except Exception:
+                    pass
+                buf[:] = X2
+                obj = first if who == 'same-object' else Bivariate(copula_type=fam)
+                try:
+                    obj.fit(buf)
+                    e1 = None
+                except Exception as e:
+                    e1 = e
+                fresh, e2 = _fit(fam, X2.copy())
+                r.tr(3)
+                r.ev()
+                r.state(('refilled', fam, n1, n2, who))
+                ok_ = type(e1) is type(e2) and (e1 is not None or (obj.tau == fresh.tau and (
+                    obj.theta == fresh.theta or abs(obj.theta - fresh.theta) <= 1e-9 * abs(fresh.theta))))
+                if not ok_:
+                    r.violation(f'C10:{fam}:refilled-array', f'{fam}: an array holding {n1} was fitted, refilled in place with {n2} and '
+                                f'fitted again ({who}): {(type(e1).__name__ if e1 else (obj.tau, obj.theta))!r}, a fresh array gives '
+                                f'{(type(e2).__name__ if e2 else (fresh.tau, fresh.theta))!r}', case=case)
+    if fam == 'frank':
+        # a dense grid of (previous tau, new tau) refits: the calibration of the second fit never depends on the first
+        taus = [round(-0.9 + 0.06 * i, 2) for i in range(31)]
+        arrays = {t_: A.designed_tau_array(40, t_) for t_ in taus}
+        fresh_theta = {}
+        for t_ in taus:
+            c_, e_ = _fit('frank', arrays[t_].copy())
+            fresh_theta[t_] = None if e_ else float(c_.theta)
+        nbad = 0
+        for t1 in taus:
+            for t2 in taus:
+                obj = Bivariate(copula_type='frank')
+                try:
+                    obj.fit(arrays[t1].copy())
+                    obj.fit(arrays[t2].copy())
+                    got = float(obj.theta)
+                except Exception:
+                    got = None
+                r.tr(2)
+                r.ev()
+                want = fresh_theta[t2]
+                if (got is None) != (want is None) or (got is not None and abs(got - want) > 1e-6 * max(1.0, abs(want))):
+                    nbad += 1
+                    if nbad == 1:
+                        r.violation('C10:frank:refit-grid', f'frank: fit(tau~{t1}) then fit(tau~{t2}) on one object gives theta={got!r}, '
+                                    f'a fresh object gives {want!r}', case=case)
+        r.add('frank_refit_pairs', len(taus) ** 2)
     r.nontriv(len(data) ** 2)
     r.hit('history-cases')
     r['sample'] = {'family': fam, 'history_alphabet': [n for n, _ in data]}
